@@ -31,9 +31,13 @@ DTS = {'NETCDF3_CLASSIC': ['f', 'd', 'i', 'h', 'b', 'c'], 'NETCDF3_64BIT_OFFSET'
        'NETCDF4_CLASSIC': ['f', 'd', 'i', 'h', 'b', 'c'],
        'NETCDF4': ['f', 'd', 'i', 'h', 'b', 'c', 'q', 'B', 'H', 'I', 'Q']}
 VATTRS = {'units': 'ppb', 'long_name': 'x y', 'gain': 1.5, 'vrange': [0.5, 5.0], 'flag': ('i4', 3), 'count': 7,
-          'small': ('i2', 12), 'tiny': ('i1', -3), 'ratio': ('f4', 0.25)}
+          'small': ('i2', 12), 'tiny': ('i1', -3), 'ratio': ('f4', 0.25),
+          # names that are python attributes of netCDF4.Variable
+          'scale': 0.5, 'path': 'x/y', 'name': 'nm', 'parent': 'none'}
 GATTRS = {'title': 'hello world', 'version': ('f4', 1.25), 'levels': ('i4', [1, 2, 3]), 'n': 5, '_private': 'x',
-          'big': ('i8', 2 ** 40), 'shorts': ('i2', [1, 2]), 'half': ('f4', 0.5)}
+          'big': ('i8', 2 ** 40), 'shorts': ('i2', [1, 2]), 'half': ('f4', 0.5),
+          # names that are python attributes of netCDF4.Dataset
+          'path': 'a/b', 'name': 'fname', 'mask': 'land', 'scale': 2.5, 'parent': 'p'}
 
 
 def gen(rng, tier):
@@ -63,7 +67,13 @@ def gen(rng, tier):
             if d[2] and not any(d[0] in v['dims'] for v in vs):
                 d[2] = False
         ga = rng.sample([k for k in sorted(GATTRS) if k != 'big' or fl == 'NETCDF4'], rng.randint(0, 4))
-        out.append(dict(flavour=fl, complevel=rng.choice([0, 0, 4]), dims=dims, vars=vs, gattrs=ga))
+        out.append(dict(flavour=fl, complevel=rng.choice([0, 0, 4]), dims=dims, vars=vs, gattrs=ga,
+                        # the output path may exist already: an earlier save in another flavour, an empty temporary file
+                        preexist=rng.choice([None, None, None, 'empty', 'NETCDF4', 'NETCDF3_CLASSIC'])))
+    # variables of more than 8 MiB (writers may work in slabs): oracle only, the model is not asked
+    for i in range(1 if tier == 'quick' else 6):
+        out.append(dict(kind='big', flavour=rng.choice(FLAVOURS), complevel=0, lead=rng.choice([25, 17, 33]),
+                        dt=rng.choice(['d', 'd', 'f']), masked=rng.random() < 0.3))
     out.append(witnesses()[0][1])
     return out
 
@@ -151,15 +161,24 @@ def _num(x):
     return lib.show_rat(Fraction(float(x))) if isinstance(x, (float, np.floating)) else lib.show_rat(Fraction(int(x)))
 
 
+def _ga(o, a):
+    """an attribute by name: through getncattr where it exists (names like path / name / scale are python attributes of
+    netCDF4 objects)"""
+    try:
+        return o.getncattr(a)
+    except Exception:
+        return getattr(o, a)
+
+
 def obs(f):
     ds = ['%s:%d:%s' % (k, len(d), 'u' if d.isunlimited() else 'f') for k, d in f.dimensions.items()]
-    ga = ['%s:%s' % (k, _tok(getattr(f, k))) for k in f.ncattrs()]
+    ga = ['%s:%s' % (k, _tok(_ga(f, k))) for k in f.ncattrs()]
     vs = []
     for k, v in f.variables.items():
         arr = v[...]
         dtn = np.dtype(v.dtype)
         dt = 'c' if dtn.kind == 'S' else DTN[dtn.name]
-        at = ['%s:%s' % (a, _tok(getattr(v, a))) for a in v.ncattrs() if a not in ('missing_value', 'fill_value', '_FillValue')]
+        at = ['%s:%s' % (a, _tok(_ga(v, a))) for a in v.ncattrs() if a not in ('missing_value', 'fill_value', '_FillValue')]
         fills = []
         for a in ('missing_value', 'fill_value', '_FillValue'):
             # `_FillValue` is not listed by PseudoNetCDF's ncattrs(), but the writer looks it up with hasattr
@@ -176,8 +195,45 @@ def obs(f):
     return 'dims=%s gattrs=%s vars=%s' % (lib.show_list(ds), lib.show_list(ga), ';'.join(vs) or '-')
 
 
+def _impl_big(case):
+    import PseudoNetCDF as pnc
+    from .. import camx
+    p = os.path.join(camx.tmpdir(), 'c07b_%d_%d.nc' % (os.getpid(), np.random.randint(1 << 30)))
+    try:
+        with lib.pnc_warnings():
+            f = pnc.PseudoNetCDFFile()
+            shape = (case['lead'], 250, 250 if case['dt'] == 'd' else 500)
+            for nm, n in zip('tyx', shape):
+                f.createDimension(nm, n)
+            vals = (np.arange(int(np.prod(shape))) % 9973).astype(case['dt']).reshape(shape)
+            if case['masked']:
+                v = f.createVariable('BIG', case['dt'], ('t', 'y', 'x'), fill_value=-999)
+                vals = np.ma.masked_array(vals, mask=(vals == 17))
+            else:
+                v = f.createVariable('BIG', case['dt'], ('t', 'y', 'x'))
+            v[...] = vals
+            f.save(p, format=case['flavour'], verbose=0).close()
+            g = pnc.pncopen(p, format='netcdf')
+            got = g.variables['BIG'][...]
+            res = dict(big=True, shape=list(np.shape(got)), want=list(shape),
+                       same_mask=bool(np.array_equal(np.ma.getmaskarray(got), np.ma.getmaskarray(vals))),
+                       same_data=bool(np.array_equal(np.ma.getdata(got)[~np.ma.getmaskarray(vals)], np.ma.getdata(vals)[~np.ma.getmaskarray(vals)])),
+                       nmasked=int(np.ma.getmaskarray(got).sum()), nmasked_src=int(np.ma.getmaskarray(vals).sum()))
+            g.close()
+            return res
+    except lib.HarnessError:
+        raise
+    except Exception as e:
+        return dict(big=True, err=type(e).__name__, msg=str(e)[:100])
+    finally:
+        if os.path.exists(p):
+            os.remove(p)
+
+
 def impl(case):
     from .. import camx
+    if case.get('kind') == 'big':
+        return _impl_big(case)
     with lib.pnc_warnings():
         f = build(case)
         src = obs(f)
@@ -185,22 +241,34 @@ def impl(case):
         try:
             import PseudoNetCDF as pnc
             try:
+                pre = case.get('preexist')
+                if pre == 'empty':
+                    open(p, 'wb').close()
+                elif pre:
+                    import netCDF4
+                    d0 = netCDF4.Dataset(p, 'w', format=pre)
+                    d0.createDimension('old', 2)
+                    d0.leftover = 'from an earlier save'
+                    d0.close()
                 o = f.save(p, format=case['flavour'], complevel=case['complevel'], verbose=0)
                 o.close()
                 g = pnc.pncopen(p, format='netcdf')
                 out = obs(g)
+                flav = str(g.file_format)
                 g.close()
             except lib.HarnessError:
                 raise
             except Exception as e:
                 return dict(src=src, err=type(e).__name__, msg=str(e)[:100])
-            return dict(src=src, out=out)
+            return dict(src=src, out=out, flavour=flav)
         finally:
             if os.path.exists(p):
                 os.remove(p)
 
 
 def to_line(case, res):
+    if case.get('kind') == 'big':
+        return 'c07 nop'
     return 'c07 rt %s %s' % (case['flavour'], res['src'])
 
 
@@ -231,6 +299,8 @@ def _diff(a, b, what=('dt', 'dims', 'attrs', 'missing', 'fill', 'ufill', 'cells'
 
 
 def agree(case, out, res):
+    if case.get('kind') == 'big':
+        return None
     if 'err' in res:
         return None if out.startswith('err') else 'impl raised %s (%s), model %s' % (res['err'], res.get('msg'), out[:60])
     if not out.startswith('ok '):
@@ -244,6 +314,17 @@ def oracle(case, res):
     and the attributes whose names start with an underscore, which the writer skips by design"""
     if 'err' in res:
         return 'saving a representable file raised %s %s' % (res['err'], res.get('msg'))
+    if case.get('kind') == 'big':
+        if res['shape'] != res['want']:
+            return 'a %s variable of shape %s reopened with shape %s' % (case['dt'], res['want'], res['shape'])
+        if not res['same_mask']:
+            return 'a %s variable of shape %s: %d cells masked after reopening, %d in the source' % (case['dt'], res['want'], res['nmasked'], res['nmasked_src'])
+        if not res['same_data']:
+            return 'a %s variable of shape %s reopened with other values' % (case['dt'], res['want'])
+        return None
+    if res.get('flavour') != case['flavour']:
+        return 'format=%s was requested, the file on disk is %s (the path %s)' % (
+            case['flavour'], res.get('flavour'), 'held a %s file before' % case['preexist'] if case.get('preexist') else 'was new')
     a, b = _parse(res['src']), _parse(res['out'])
     a['gattrs'] = lib.show_list([t for t in ([] if a['gattrs'] == '-' else a['gattrs'].split(',')) if not t.startswith('_')])
     # out of domain: an unmasked value equal to a fill value cannot be stored unmasked in netCDF
@@ -259,6 +340,8 @@ def classify(case, failure, model_out):
 
 
 def nontrivial(case, res):
+    if case.get('kind') == 'big':
+        return 'err' not in res
     return 'out' in res and any(v.get('how') and v.get('nmask') for v in case['vars']) and any(not v.get('how') for v in case['vars'])
 
 
@@ -274,6 +357,10 @@ def distribution(recs):
     for r in recs:
         c = r['case']
         d[c['flavour']] = d.get(c['flavour'], 0) + 1
+        if c.get('kind') == 'big':
+            d['big'] = d.get('big', 0) + 1
+            continue
+        d['preexist:%s' % c.get('preexist')] = d.get('preexist:%s' % c.get('preexist'), 0) + 1
         for v in c['vars']:
             k = 'dt:%s' % v['dt']
             d[k] = d.get(k, 0) + 1
